@@ -184,6 +184,41 @@ def run(ctx):
                 fails.append({"what": f"truncation to {k} of {len(data)} bytes accepted", "bytes": data[:k].hex(), "python": r[:600]})
             if k % 5 == 0:
                 lines.append("rbatch " + values.hex_tok(data[:k])); meta.append(("cut", data[:k], r))
+    # (d2) large batches (a megabyte and more; a value that ends in zeros): selected truncation points,
+    # in particular cuts that remove only zero bytes — a reader that pads a short body would not notice
+    import io as _io
+    from kio.records.schema import NewRecordBatch, Record
+    from kio.records.writers import write_batch as _wb
+    from crc32c import crc32c as _crc
+    nbig = 0
+    for size, ztail in ((2**20 + 17, 6000), (2**20 * 2 + 3, 70000)) if not thorough else ((2**20 + 17, 6000), (2**20 * 2 + 3, 70000), (2**20 - 9, 5000), (2**22 + 1, 2**20)):
+        val = bytes(rng.getrandbits(8) | 1 for _ in range(1000)) * ((size - ztail) // 1000) + bytes(ztail)
+        rec = Record(attributes=0, timestamp=values.EPOCH, offset=5, key=b"k", value=val, headers=())
+        bb = _io.BytesIO()
+        _wb(bb, NewRecordBatch(producer_id=1, producer_epoch=0, partition_leader_epoch=0, base_sequence=0,
+                               records=(rec,), attributes=0))
+        big = bb.getvalue()
+        # (well-formed by an independent look: length field and CRC-32C over bytes 21..)
+        if struct.unpack(">i", big[8:12])[0] != len(big) - 12 or struct.unpack(">I", big[17:21])[0] != _crc(big[21:]):
+            ctx.notes.append("large reference batch not well-formed by the independent check; skipped")
+            continue
+        if not recgen.read_real(big).startswith("ok"):
+            fails.append({"what": "a well-formed large batch is rejected", "bytes": big[:200].hex(), "python": recgen.read_real(big)[:300]})
+            continue
+        nbig += 1
+        for cut in sorted({len(big) - 1, len(big) - 2, len(big) - 7, len(big) - 4096, len(big) - 5001, len(big) - ztail + 1,
+                           len(big) - ztail - 1, len(big) // 2, 2**20, 2**20 - 1, 2**16, 4096, 61, 21, 17, 12, 1, 0}):
+            if 0 <= cut < len(big):
+                r = recgen.read_real(big[:cut]); evals += 1
+                if r.startswith("ok"):
+                    fails.append({"what": f"truncation of a {len(big)}-byte batch to {cut} bytes accepted",
+                                  "bytes": big[:64].hex(), "size": len(big), "cut": cut, "python": r[:200]})
+        for pos in (21, 61, len(big) // 2, len(big) - 1, len(big) - ztail // 2):
+            bad = bytearray(big); bad[pos] ^= 0x10
+            r = recgen.read_real(bytes(bad)); evals += 1
+            if r.startswith("ok"):
+                fails.append({"what": f"bit flip at byte {pos} of a {len(big)}-byte batch accepted", "bytes": big[:64].hex(),
+                              "size": len(big), "python": r[:200]})
     # (e) CRC-colliding truncation (the case only exact reads catch)
     for _ in range(6 if not thorough else 40):
         val = bytes(rng.getrandbits(8) for _ in range(rng.choice([4, 8, 12]))) + b"\0\0\0\0"
@@ -228,7 +263,7 @@ def run(ctx):
         "rule": "case = (batch, perturbation); batches = reference encodings by the Lean spec + 4 real-broker "
                 "fixtures; perturbations = identity, 4 wrong magics, every single-bit flip from byte 17, every cut, "
                 "CRC-colliding truncation; non-trivial batch iff ≥1 record with non-null key or value",
-        "batches": len(cases), "model_requests": len(lines), "disagreements": len(disagreements),
+        "batches": len(cases), "large_batches": nbig, "model_requests": len(lines), "disagreements": len(disagreements),
         "property_failures_on_code": len(fails), "known_finding_cases": len(known),
         "samples": [{"label": l, "bytes": d.hex()[:200]} for l, _, d in cases[:4]],
     })
